@@ -68,7 +68,7 @@ CLAIMS = {
   note=COMMON_NOTE + " The reachability theorem covers the MIR analysis; the internal-type arithmetic of the emitted accessors (F6c/F15) is covered by the oracle and the compiled probe, not by a theorem.",
   technique="Lean 4 proof (stack-invariant refinement of the min/max walk, partial: no repeated blocks / block refs; counterexample theorem for the full statement) + exact address oracle + differential correspondence + compiled probe", ref="3.13"),
  "C14": dict(
-  text="Lean 4 theorems (DDV.Props.C14): refs_accept_iff (refs_validated accepts iff every block / register / command ref targets an existing object of the kind its override states; rejection is a reported error with two names, never a panic), ref_resolves_anywhere (with distinct names the depth-first lookup finds exactly the object of that name wherever it is declared), ref_to_buffer_or_ref_rejected and override_layout_keys_rejected (both front ends), device_name_check, and the pass-order obligation re-extracted from run_passes (refs validated before anything dereferences them — the order was wrong on the original tree: finding F7, repaired by a fix: commit). Name uniqueness is validated by correspondence and an oracle using the real convert_case result per case.",
+  text="Lean 4 theorems (DDV.Props.C14): names_accept_iff (names_unique, modelled with its accumulating seen-sets, accepts iff over the whole tree no two objects share name and cfg, no field set has two fields of one name, no two generated enums share name and cfg and no enum has two variants of one name and cfg; the pass changes nothing), refs_accept_iff (refs_validated accepts iff every block / register / command ref targets an existing object of the kind its override states; rejection is a reported error with two names, never a panic), ref_resolves_anywhere (with distinct names the depth-first lookup finds exactly the object of that name wherever it is declared), ref_to_buffer_or_ref_rejected and override_layout_keys_rejected (both front ends), device_name_check, and the pass-order obligation re-extracted from run_passes (refs validated before anything dereferences them — the order was wrong on the original tree: finding F7, repaired by a fix: commit). The normalisation itself (convert_case) is an oracle per case; uniqueness is proved on the normalised names and validated end to end by correspondence.",
   note=COMMON_NOTE + " cfg-free definitions; convert_case opaque.",
   technique="Lean 4 proof (ref validation iff, lookup uniqueness, front-end rejections, extracted pass order) + differential correspondence + independent oracle", ref="3.14"),
  "C16": dict(
